@@ -55,10 +55,13 @@ def run_one(args):
         env = dict(os.environ)
         env["VERIF_REPO"] = tmp
         env["VERIF_EVIDENCE_DIR"] = os.path.join(tmp, "evidence")
-        p = subprocess.run(
-            [sys.executable, os.path.join(HERE, "check.py"), pid, "--repo", tmp, "--no-evidence"],
-            capture_output=True, text=True, env=env, timeout=600,
-        )
+        try:
+            p = subprocess.run(
+                [sys.executable, os.path.join(HERE, "check.py"), pid, "--repo", tmp, "--no-evidence"],
+                capture_output=True, text=True, env=env, timeout=900,
+            )
+        except subprocess.TimeoutExpired:
+            return (pid, name, False, "check did not finish within 900 s on this variant")
         out = p.stdout + p.stderr
         if expect == "fire":
             ok = p.returncode == 1 and "VIOLATION property=%s" % pid in out
@@ -105,7 +108,10 @@ def run_seed(args):
                 return (pid, name, True, "twin no longer applies (skipped)")
             # the tree under test differs from the one the seed was written for: nothing to decide
             return (pid, "seeded:" + name, True, "seeded patch no longer applies (skipped)")
-        p = subprocess.run([sys.executable, os.path.join(HERE, "check.py"), pid, "--repo", tmp, "--no-evidence"], capture_output=True, text=True, timeout=900)
+        try:
+            p = subprocess.run([sys.executable, os.path.join(HERE, "check.py"), pid, "--repo", tmp, "--no-evidence"], capture_output=True, text=True, timeout=900)
+        except subprocess.TimeoutExpired:
+            return (pid, name, False, "check did not finish within 900 s on this variant")
         out = p.stdout + p.stderr
         if expect == "fire":
             ok = p.returncode == 1 and "VIOLATION property=%s" % pid in out
